@@ -67,7 +67,6 @@ func checkDepthFragmentSpread(fragmentSpread *ast.FragmentSpread, visitedFragmen
 	fragmentName := fragmentSpread.Name
 	if visited, ok := visitedFragments.visited[fragmentName]; ok && visited {
 		// Fragment cycles are handled by `NoFragmentCyclesRule`.
-		visitedFragments.skipped++
 		return false
 	}
 	if visitedFragments.clean[fragmentAtDepth{fragmentName, depth}] {
@@ -89,10 +88,12 @@ func checkDepthFragmentSpread(fragmentSpread *ast.FragmentSpread, visitedFragmen
 	// other.
 	visitedFragments.visited[fragmentName] = true
 	defer delete(visitedFragments.visited, fragmentName)
-	skippedBefore := visitedFragments.skipped
 	exceeded := checkDepthSelectionSet(fragment.SelectionSet, visitedFragments, depth)
-	if !exceeded && visitedFragments.skipped == skippedBefore {
-		// only remember results that did not depend on what was being visited
+	if !exceeded {
+		// Remembered also when a spread of a fragment being visited was skipped on the
+		// way: such a document has a fragment cycle, which `NoFragmentCyclesRule`
+		// reports, and not remembering it makes a fan-out that ends in a cycle
+		// exponential again.
 		visitedFragments.clean[fragmentAtDepth{fragmentName, depth}] = true
 	}
 	return exceeded
@@ -106,7 +107,6 @@ type fragmentAtDepth struct {
 type introspectionDepthState struct {
 	visited map[string]bool
 	clean   map[fragmentAtDepth]bool
-	skipped int
 }
 
 func init() {
